@@ -78,7 +78,7 @@ Theorem skip_unread_sound po (stops : id -> stopfn) f st ur n sn dv (sv : id -> 
   (* Outdated() = false *)
   lstale po (S f) st ur n = Some false ->
   (* dependencies that are not outdated show their from-scratch value E *)
-  (forall d, lstale po f st ur d = Some false -> E d = outT st d) ->
+  (forall d, In d (deps_ids sn) -> lstale po f st ur d = Some false -> E d = outT st d) ->
   sn_cache sn = sn_proc sn (cut (stops n) (map (map E) (ids_of sn))).
 Proof.
   intros PO En Edv Ed Hdv Hfl Hc Hval Hcons Hs HE.
@@ -91,7 +91,59 @@ Proof.
   assert (Hu : U d = false) by (eapply Hcons; eauto).
   assert (Hin : In d (enum po n sn)) by (apply (perm_in_deps po n sn d PO); exact Hdeps).
   destruct (Hf d Hin Hu) as [Hv Hst].
-  rewrite (Hval d Hdeps Hu (eq_sym Hv)). symmetry. apply HE. exact Hst.
+  rewrite (Hval d Hdeps Hu (eq_sym Hv)). symmetry. apply HE; [exact Hdeps|exact Hst].
+Qed.
+
+(* ---- the record invariant, and freshness of every node the repaired Outdated() calls up to date ---- *)
+Definition lnode_inv (po : order) (stops : id -> stopfn) (st : store) (ur : unread_tab) (n : id) (sn : snode) : Prop :=
+  forall dv, sn_depvers sn = Some dv -> sn_dirty sn = false ->
+  exists (sv : id -> nat) (sx : id -> val) (U : id -> bool),
+    dv = map sv (enum po n sn) /\ flags_of ur n = map U (enum po n sn) /\
+    sn_cache sn = sn_proc sn (cut (stops n) (map (map sx) (ids_of sn))) /\
+    (forall d, In d (deps_ids sn) -> U d = false -> sv d = verT st d -> sx d = outT st d) /\
+    (forall j l d, j < length (cut (stops n) (map (map sx) (ids_of sn))) -> nth_error (ids_of sn) j = Some l -> In d l -> U d = false).
+Definition LInv (po : order) (stops : id -> stopfn) (st : store) (ur : unread_tab) : Prop :=
+  forall n sn, nth_error st n = Some (Struct sn) -> lnode_inv po stops st ur n sn.
+(* every processor looks only at the prefix its discipline reads *)
+Definition lazy_procs (stops : id -> stopfn) (st : store) : Prop :=
+  forall n sn, nth_error st n = Some (Struct sn) -> forall ins, sn_proc sn ins = sn_proc sn (cut (stops n) ins).
+
+Lemma eval_total : forall f g n h, depth f g n = Some h -> exists v, eval_scratch f g n = Some v.
+Proof.
+  induction f as [|f IH]; intros g n h H; [discriminate|].
+  rewrite depth_S in H. rewrite eval_S. destruct (nth_error g n) as [[v|ins proc]|]; [eauto| |discriminate].
+  inv_bind H.
+  destruct (map_opt_total (map_opt (eval_scratch f g)) ins) as [xs ->]; [|simpl; eauto].
+  intros l Hl. apply map_opt_total. intros d Hd.
+  destruct (map_opt_some_in _ _ _ E d) as (hd & Ed & _); [apply in_concat; eauto|]. eapply IH; eauto.
+Qed.
+
+(* FRESHNESS of whatever the repaired Outdated() calls up to date, any depth: in a state whose records are what
+   process() writes ([LInv]), a node with Outdated() = false shows its from-scratch value — inputs that were not
+   read may be Stale, changed, anything *)
+Theorem lstale_false_eval po stops : perm_ok po -> forall f st ur n h,
+  LInv po stops st ur -> lazy_procs stops st ->
+  depth f (graph_of st) n = Some h -> lstale po f st ur n = Some false ->
+  eval_scratch f (graph_of st) n = Some (outT st n).
+Proof.
+  intros PO. induction f as [|f IH]; intros st ur n h I LP D H; [discriminate|].
+  pose proof H as H0. cbn [lstale] in H. rewrite eval_S, graph_nth. unfold outT.
+  destruct (nth_error st n) as [[ver w sets|sn]|] eqn:En; simpl; auto; [|discriminate].
+  destruct (sn_depvers sn) as [dv|] eqn:Edv; [|discriminate].
+  destruct (sn_dirty sn) eqn:Ed; [discriminate|].
+  destruct (I _ _ En dv Edv Ed) as (sv & sx & U & Hdv & Hfl & Hc & Hval & Hcons).
+  rewrite depth_S, graph_nth, En in D. simpl in D. inv_bind D.
+  set (g := graph_of st) in *.
+  set (Ev := fun d => match eval_scratch f g d with Some v => v | None => 0%Z end).
+  assert (Hev : forall d, In d (deps_ids sn) -> eval_scratch f g d = Some (Ev d)).
+  { intros d Hd. destruct (map_opt_some_in _ _ _ E d Hd) as (hd & Ehd & _).
+    destruct (eval_total _ _ _ _ Ehd) as [v Hv]. unfold Ev. rewrite Hv. reflexivity. }
+  erewrite (map_opt_ext_some _ (map Ev)).
+  2:{ intros l Hl. apply map_opt_ext_some. intros d Hd. apply Hev. unfold deps_ids. apply in_concat. eauto. }
+  simpl. f_equal. rewrite (LP _ _ En). symmetry.
+  eapply (skip_unread_sound po stops f st ur n sn dv sv sx Ev U); eauto.
+  intros d Hd Hs. destruct (map_opt_some_in _ _ _ E d Hd) as (hd & Ehd & _).
+  pose proof (IH st ur d hd I LP Ehd Hs) as He. fold g in He. rewrite (Hev d Hd) in He. injection He as ->. reflexivity.
 Qed.
 
 (* ---- witness: nodes 0 gate (parameter, 0 = "stop"), 1 parameter, 2 = U(1), 3 = L(Gate: 0, A: 2) ---- *)
